@@ -13,19 +13,21 @@ P = {
     "id": "C13",
     "coq_targets": ["Properties/C13.vo", "Run/Eval_C13.vo"],
     "theorems_module": "Properties.C13",
-    "theorems": ["C13_same_lookup", "C13_same_view", "C13_same_decision", "C13_same_upstream_headers",
-                 "C13_three_entry_points_agree", "C13_current_tree_agree", "C13_current_tree_captures_unguarded",
-                 "C13_all_fixed_guards", "C13_fixed_F4_slash_check_agrees", "C13_decision_proxy_same_execution",
-                 "C13_header_lookup_agrees", "C13_header_accessors_agree", "C13_cookie_readers_agree",
-                 "C13_F1_pinned_refuted", "C13_F1_pinned_refuted_decision", "C13_F2_refuted", "C13_F3_refuted", "C13_F4_refuted",
-                 "C13_F4_refuted_view", "C13_F5_refuted", "C13_F5_refuted_handover", "C13_F6_refuted", "C13_F7_refuted",
-                 "C13_F8_refuted", "C13_nonvacuous", "C13_nonvacuous_pinned"],
+    "theorems": ["C13_three_entry_points_agree_repo", "C13_repo_guards", "C13_repo_guards_fire", "C13_slash_check_agrees_repo",
+                 "C13_same_lookup", "C13_same_view", "C13_same_decision", "C13_same_upstream_headers",
+                 "C13_three_entry_points_agree", "C13_decision_proxy_same_execution",
+                 "C13_header_lookup_agrees", "C13_header_accessors_agree_repo", "C13_header_accessors_agree",
+                 "C13_cookie_readers_agree",
+                 "C13_F1_pinned_refuted", "C13_F1_pinned_refuted_decision", "C13_F2_pinned_refuted", "C13_F3_pinned_refuted",
+                 "C13_F4_pinned_refuted", "C13_F4_pinned_refuted_view", "C13_F6_pinned_refuted", "C13_F7_pinned_refuted",
+                 "C13_F3b_refuted", "C13_F5_refuted", "C13_F5_refuted_handover", "C13_F8_refuted",
+                 "C13_nonvacuous", "C13_nonvacuous_pinned"],
     "streams": [{
         "name": "entrypoints", "pkg": "./internal/zzverif/c13", "test": "TestVerifC13",
         "overlay": dict(ASSEMBLY_OVERLAY, **{"internal/zzverif/c13/c13_test.go": "c13/c13_test.go"}),
-        "eval_module": "Run.Eval_C13", "check_term": "check_f1fixed",
+        "eval_module": "Run.Eval_C13", "check_term": "check_repo",
         "n_quick": 1200, "n_thorough": 30000,
-        "findings": {2: "C13-F2", 3: "C13-F3", 4: "C13-F4", 5: "C13-F5", 6: "C13-F6", 7: "C13-F7", 8: "C13-F8"},
+        "findings": {3: "C13-F3b", 5: "C13-F5", 8: "C13-F8"},
         "shard": 100,
     }],
     "rule": "per group of 40 cases one generated rule set of 4-7 rules (path expressions /rK/lit, /rK/:name, /rK/:a/x/:b, /rK/**, "
@@ -39,7 +41,7 @@ P = {
             "constraint is violated on purpose in a share), http/https, 4 hosts, 7 queries, 0-3 header names in random casing with repeated "
             "lines, an optional Cookie line (plain, quoted, spaces, commas, odd separators, invalid names), optional Content-Type + body "
             "(json/form/yaml/text/unknown, valid, invalid and empty bodies).  The same request goes to all three entry points.  Corpus "
-            "(23 cases, the witnesses of C13-F1..F8) first.  Non-trivial = a rule matched and its pipeline reads the view in a condition "
+            "(24 cases, the witnesses of C13-F1..F8 and F3b) first.  Non-trivial = a rule matched and its pipeline reads the view in a condition "
             "or a template; distinct by hash of (rule, request).",
     "anchors": ["internal/handler/requestcontext/request_context.go", "internal/handler/decision/request_context.go",
                 "internal/handler/proxy/request_context.go", "internal/handler/envoyextauth/grpcv3/request_context.go",
@@ -72,27 +74,29 @@ P = {
                   "parts, method, client addresses - emits upstream headers/cookies and allows or fails), the HTTP decision service, the "
                   "proxy service and the Envoy ext_authz service (model of the three request contexts, the executor's two-phase use of "
                   "the view and the three Finalize) reach the same decision, match the same rule, answer every read of the view alike "
-                  "and hand the same headers and cookies over, unless one of seven recorded, replayed findings applies to a read the "
-                  "pipeline makes (guards C13-F1..F7, each with a proved witness that the entry points differ on it); decision and proxy "
-                  "share one context and agree without any guard.  Lemmas of independent use: header lookup with a canonical name agrees "
-                  "for all header multisets; net/http's and grpcv3's cookie readers agree on every plain Cookie line.  The model is tied "
-                  "to the code by sending ~1200 (quick) / 30000 (thorough) generated requests per run to the three real assembled "
-                  "applications loaded with generated rule sets and comparing decision, matched rule, the echoed view and the hand-over "
-                  "with the model inside Coq; the property predicate (three observations equal) is evaluated on the observations.",
+                  "and hand the same headers and cookies over.  For /repo as it is (six findings repaired by fix: commits) the only "
+                  "guards left are three open findings: cookie reading/writing (C13-F5), Headers() as a whole (C13-F8) and blank-padded "
+                  "values of a header added twice (C13-F3b), each with a proved witness that the entry points differ; captures, header "
+                  "names, Host, URL.Path/RawPath/String(), the encoded-slash check, the body and multi-valued headers are unguarded "
+                  "(C13_three_entry_points_agree_repo, C13_repo_guards, C13_repo_guards_fire).  The same theorems hold for every subset "
+                  "of the repairs (record `fixes`), and each repaired finding keeps a _pinned_refuted witness (differs without the "
+                  "repair, agrees with it, same request).  Decision and proxy share one context and agree without any guard.  Lemmas of "
+                  "independent use: Header(n) agrees for ALL names and header multisets; net/http's and grpcv3's cookie readers agree on "
+                  "every plain Cookie line.  The model is tied to the code by sending ~1200 (quick) / 30000 (thorough) generated "
+                  "requests per run to the three real assembled applications loaded with generated rule sets and comparing decision, "
+                  "matched rule, the echoed view and the hand-over with the model inside Coq; the property predicate (three "
+                  "observations equal) is evaluated on the observations.",
     "level_note": "Trusted: Coq kernel/vm_compute; the correspondence harness incl. the Envoy encoding of a request and the projection "
-                  "of the hand-over; body decoders are oracles; rule lookup is an arbitrary function (C02/C03); CEL/text-template reduced "
-                  "to `read == const` and echo.  The model carries one flag per finding that has a repair (record `fixes`); every theorem "
-                  "holds for every combination and the guard of a repaired finding is off.  C13-F1 (Envoy context rebuilt the view on "
-                  "every Request(): captures lost) is FIXED by fix: b2286d8: the evaluator expects the repaired variant (check_f1fixed), "
-                  "no guard is honoured for it, the pinned behaviour is kept as C13_F1_pinned_refuted.  Open findings with guards: F2 "
-                  "(Header(name) not canonicalised under Envoy), F3 (multi-valued pipeline header: first value vs joined), F4 (escaped "
-                  "path in URL.Path, RawPath empty, the allow_encoded_slashes: off check never fires under Envoy), F6 (Header(\"Host\")), "
-                  "F7 (Body of a body-less request) - each with a candidate repair fixes/C13-Fx.diff that passes the unedited unit tests; "
-                  "the driver detects by sentinel requests which of them the tree contains and the evaluator runs that variant, while "
-                  "findings/C13.json alone decides whether a pinned behaviour is tolerated (checked: each diff alone and all together "
-                  "keep the check green and remove exactly their finding) -, F5 (cookie reading/writing: net/http vs plain split) and "
-                  "F8 (Headers() lacks the Host key under Envoy) without repair.  Not covered: X-Forwarded-* on the HTTP side (C09), the "
-                  "upstream URL and header pass-through of the proxy (C15), multi-hop client address lists.",
+                  "of the hand-over (header values as read off the wire: surrounding blanks trimmed, several lines joined with ','); "
+                  "body decoders are oracles; rule lookup is an arbitrary function (C02/C03); CEL/text-template reduced to "
+                  "`read == const` and echo.  FIXED (fix: commits, findings/C13.json `fixed`, evaluator expects the repaired variant "
+                  "`check_repo`, revert of each commit in a scratch worktree => VIOLATION): C13-F1 b2286d8 (Envoy context rebuilt the "
+                  "view: captures lost), F2 7c3e9fc (Header(name) not canonicalised under Envoy), F3 a5ef279 (multi-valued pipeline "
+                  "header: first value vs joined), F4 ae6db4f (escaped path in URL.Path, RawPath empty, allow_encoded_slashes: off never "
+                  "fired under Envoy), F6 06faa19 (Header(\"Host\")), F7 19923cd (Body of a body-less request).  OPEN with guards: F5 "
+                  "(cookies: net/http's reader/sanitiser vs plain split/concat), F8 (Headers() lacks the Host key under Envoy; grpcv3's "
+                  "own unit test pins the map), F3b (blanks around values of a header added twice).  Not covered: X-Forwarded-* on the "
+                  "HTTP side (C09), the upstream URL and header pass-through of the proxy (C15), multi-hop client address lists.",
     "assumptions": [
         "a logical request is well-formed (wf_lreqb, checked on every case): header names are tokens, no Host/X-Forwarded-*/Forwarded "
         "line, values without surrounding blanks, at most one Cookie line, path starts with '/' and is validly percent-encoded",
